@@ -306,12 +306,23 @@ func (m *muxer) APIReaderDescribe() *defs.APIPathReader {
 	}
 }
 
-func (m *muxer) addSession(sx *session) ([]format.Format, error) {
+func (m *muxer) formats() ([]format.Format, error) {
+	m.mutex.RLock()
+	defer m.mutex.RUnlock()
+
+	if m.instance == nil {
+		return nil, fmt.Errorf("muxer instance not available")
+	}
+
+	return m.instance.reader.Formats(), nil
+}
+
+func (m *muxer) addSession(sx *session) error {
 	m.mutex.Lock()
 	defer m.mutex.Unlock()
 
 	if m.instance == nil {
-		return nil, fmt.Errorf("muxer instance not available")
+		return fmt.Errorf("muxer instance not available")
 	}
 
 	if sx.isCDN {
@@ -323,7 +334,7 @@ func (m *muxer) addSession(sx *session) ([]format.Format, error) {
 		m.sessionsBySecret[sx.secret] = sx
 	}
 
-	return m.instance.reader.Formats(), nil
+	return nil
 }
 
 func (m *muxer) getCDNSession() *session {
